@@ -9,6 +9,8 @@ From Coq Require Import ZArith List Bool.
 From Verif Require Import Lib.Sx Lib.PyStr Lib.PyStr3 Lib.Facts Model.Framing Model.Parsers Proofs.Parsers.
 From Verif Require Import Proofs.ParsersExact.
 From Verif Require Import Gen.Dispatch.
+From Verif Require Import Proofs.ParserFacts.
+From Verif Require Gen.ParserFacts.
 Import ListNotations.
 Open Scope Z_scope.
 
@@ -318,6 +320,29 @@ Example C19_unix_line_exact_nonvacuous :
         [(k_type, t_dir); (k_mode, [52; 57; 51]); (k_links, [50]); (k_owner, [111]); (k_group, [103]);
          (k_size, [52; 48; 57; 54]); (k_modify, [50; 48])]).
 Proof. exact unix_line_exact_example. Qed.
+
+(* ---- structural tie of the client parsers ----
+   The facts of client.py the model was written from -- parser chain of parse_list_line, the class
+   names of its except tuple, that the handler only collects, the final raise; the two regular
+   expressions, the match picked and the slice; parse_unix_mode's tables; the names the lister
+   skips and its recursion test -- REGENERATED on every run (Gen/ParserFacts.v, fail-closed
+   translator) and checked against the model by computation. *)
+Theorem C19_parser_structure_obligation :
+  parser_facts_check Gen.ParserFacts.parser_facts_translator_ok
+    Gen.ParserFacts.list_line_chain Gen.ParserFacts.list_line_funnel Gen.ParserFacts.list_line_handler
+    Gen.ParserFacts.list_line_final Gen.ParserFacts.epsv_regex Gen.ParserFacts.epsv_pick
+    Gen.ParserFacts.epsv_slice Gen.ParserFacts.pasv_regex Gen.ParserFacts.unix_rw_table
+    Gen.ParserFacts.unix_rw_slices Gen.ParserFacts.unix_special Gen.ParserFacts.lister_skip
+    Gen.ParserFacts.lister_recursion_test = true.
+Proof. vm_compute. reflexivity. Qed.
+Print Assumptions C19_parser_structure_obligation.
+
+(* hence the model's funnel is the except tuple the source has today, class by class (under the
+   CPython class hierarchy written in Proofs/ParserFacts.v: instance_of) *)
+Theorem C19_funnel_is_source_funnel :
+  forall e, caught_by Gen.ParserFacts.list_line_funnel e = Some (funnel e).
+Proof. exact (parser_facts_funnel _ _ _ _ _ _ _ _ _ _ _ _ _ _ C19_parser_structure_obligation). Qed.
+Print Assumptions C19_funnel_is_source_funnel.
 
 (* non-vacuity *)
 Example C19_unix_line_parses :
